@@ -3,7 +3,11 @@
 //!
 //! usage: c16 <script.json> <out.json>
 //!   script: {"root": dir holding vhdl_ls.toml,
-//!            "steps": [ {"edit": null | {"file": abs path, "text": new full text},
+//!            "dump_text": bool  -- also report the text the Project holds for every queried file ("lines")
+//!            "steps": [ {"disk": [{"path": abs, "hex": bytes} | {"path": abs, "delete": true}],  -- written first
+//!                        "reload": bool   -- re-read the configuration and `Project::update_config` (what the server's
+//!                                            reload_project does on a config change / file create, rename, delete)
+//!                        "edit": null | {"file": abs path, "text": new full text},
 //!                        "files": [abs path, ...]} ]}
 //!   out:    {"steps": [ {"files": [ {"file", "present",
 //!                "raw": [[l,c,el,ec,ty,mo], ...]   -- `find_all_entity_references` in collection order;
@@ -22,7 +26,7 @@ use std::panic::{catch_unwind, AssertUnwindSafe};
 use std::path::Path;
 use vhdl_lang::ast::{Designator, ExternalObjectClass};
 use vhdl_lang::{
-    AnyEntKind, Concurrent, Config, EntHierarchy, EntRef, MessagePrinter, NullMessages, Object, Overloaded, Project,
+    AnyEntKind, Concurrent, Config, EntHierarchy, EntRef, NullMessages, Object, Overloaded, Project,
     Range, Source, Token, Type,
 };
 
@@ -164,6 +168,25 @@ fn query(project: &Project, file: &str) -> Value {
     }
 }
 
+fn load_config(root: &str) -> Config {
+    let mut msgs = NullMessages;
+    let mut cfg = Config::default();
+    cfg.load_external_config(&mut msgs, Some("/repo/vhdl_libraries".to_string()));
+    let toml = Path::new(root).join("vhdl_ls.toml");
+    match Config::read_file_path(&toml) {
+        Ok(c2) => cfg.append(&c2, &mut msgs),
+        Err(e) => {
+            // like the server: a missing / unreadable configuration is an empty one
+            eprintln!("cannot read {}: {}", toml.display(), e);
+        }
+    }
+    cfg
+}
+
+fn unhex(s: &str) -> Vec<u8> {
+    (0..s.len() / 2).map(|i| u8::from_str_radix(&s[2 * i..2 * i + 2], 16).unwrap()).collect()
+}
+
 fn main() {
     let args: Vec<String> = std::env::args().collect();
     if args.len() < 3 {
@@ -175,21 +198,35 @@ fn main() {
     std::panic::set_hook(Box::new(|_| {}));
 
     let mut msgs = NullMessages;
-    let mut cfg = Config::default();
-    cfg.load_external_config(&mut MessagePrinter::default(), Some("/repo/vhdl_libraries".to_string()));
-    let toml = Path::new(&root).join("vhdl_ls.toml");
-    match Config::read_file_path(&toml) {
-        Ok(c2) => cfg.append(&c2, &mut msgs),
-        Err(e) => {
-            eprintln!("cannot read {}: {}", toml.display(), e);
-            std::process::exit(2);
-        }
-    }
-    let mut project = Project::from_config(cfg, &mut msgs);
+    let dump_text = script.get("dump_text").and_then(|v| v.as_bool()).unwrap_or(false);
+    let mut project = Project::from_config(load_config(&root), &mut msgs);
     project.analyse();
 
     let mut steps_out: Vec<Value> = Vec::new();
     for step in script["steps"].as_array().expect("steps") {
+        if let Some(disk) = step.get("disk").and_then(|d| d.as_array()) {
+            for item in disk {
+                let path = item["path"].as_str().expect("disk.path");
+                if item.get("delete").and_then(|v| v.as_bool()).unwrap_or(false) {
+                    let _ = std::fs::remove_file(path);
+                } else {
+                    if let Some(parent) = Path::new(path).parent() {
+                        let _ = std::fs::create_dir_all(parent);
+                    }
+                    std::fs::write(path, unhex(item["hex"].as_str().expect("disk.hex"))).expect("write disk file");
+                }
+            }
+        }
+        if step.get("reload").and_then(|v| v.as_bool()).unwrap_or(false) {
+            let r = catch_unwind(AssertUnwindSafe(|| {
+                project.update_config(load_config(&root), &mut NullMessages);
+                project.analyse();
+            }));
+            if r.is_err() {
+                steps_out.push(json!({"analysis_panic": true, "files": []}));
+                break;
+            }
+        }
         if let Some(edit) = step.get("edit").filter(|e| !e.is_null()) {
             let file = edit["file"].as_str().expect("edit.file");
             let text = edit["text"].as_str().expect("edit.text");
@@ -211,7 +248,15 @@ fn main() {
         }
         let mut files_out: Vec<Value> = Vec::new();
         for f in step["files"].as_array().expect("files") {
-            files_out.push(query(&project, f.as_str().expect("file")));
+            let mut q = query(&project, f.as_str().expect("file"));
+            if dump_text {
+                if let Some(source) = project.get_source(Path::new(f.as_str().unwrap())) {
+                    let c = source.contents();
+                    let lines: Vec<String> = (0..c.num_lines()).map(|i| c.get_line(i).unwrap_or("").to_string()).collect();
+                    q["lines"] = json!(lines);
+                }
+            }
+            files_out.push(q);
         }
         steps_out.push(json!({"files": files_out}));
     }
